@@ -97,6 +97,47 @@ def repro_case(cfg, rs_a, rs_b):
     return bad, r1["n_iter"]
 
 
+def boundary_seeds_case(cfg):
+    """Every valid seed value is its own run: the ends of numpy's seed range and the 31/32-bit boundaries, pairwise."""
+    from tempest.tools import systematic_resample
+    bad = []
+    seeds = [0, 1, 2 ** 31 - 1, 2 ** 31, 2 ** 32 - 2, 2 ** 32 - 1]
+    runs_ = {}
+    for rs in seeds:
+        try:
+            runs_[rs] = run_digest(dict(cfg, random_state=rs), ambient=11, perturb=3)
+        except Exception as e:
+            bad.append(("valid-seed-rejected", f"random_state={rs} (a valid numpy seed): {type(e).__name__}: {e}"))
+    ks = sorted(runs_)
+    for i, a in enumerate(ks):
+        for b in ks[i + 1:]:
+            if runs_[a]["dg"] == runs_[b]["dg"]:
+                bad.append(("different-seeds-same-run", f"random_state={a} and random_state={b} give identical histories"))
+            elif runs_[a]["rows"] & runs_[b]["rows"]:
+                bad.append(("different-seeds-share-particles", f"runs with random_state={a} and {b} have {len(runs_[a]['rows'] & runs_[b]['rows'])} particles in common"))
+    w = np.random.default_rng(5).dirichlet(np.ones(40))
+    idx = {}
+    for rs in seeds:
+        st = np.random.get_state()
+        try:
+            idx[rs] = np.asarray(systematic_resample(64, w.copy(), random_state=rs)).tobytes()
+        except Exception as e:
+            bad.append(("valid-seed-rejected", f"systematic_resample(random_state={rs}): {type(e).__name__}: {e}"))
+        np.random.set_state(st)
+    for i, a in enumerate(sorted(idx)):
+        for b in sorted(idx)[i + 1:]:
+            if idx[a] == idx[b]:
+                # 64 teeth over 40 weights: two different offsets give the same index vector only if they fall into one cell
+                # of the comb partition (~100 cells): a coincidence of probability ~1e-2 per pair - require a second witness
+                w2 = np.random.default_rng(6).dirichlet(np.ones(400))
+                st = np.random.get_state()
+                same2 = np.asarray(systematic_resample(640, w2.copy(), random_state=a)).tobytes() == np.asarray(systematic_resample(640, w2.copy(), random_state=b)).tobytes()
+                np.random.set_state(st)
+                if same2:
+                    bad.append(("different-seeds-same-run", f"systematic_resample with random_state={a} and {b} uses the same offset"))
+    return bad, len(runs_)
+
+
 # ---------------------------------------------------------------------------- operations
 def _pool(rng, n=200, d=2):
     u = np.clip(0.5 + 0.15 * rng.standard_normal((n, d)), 0.01, 0.99)
@@ -261,6 +302,17 @@ def run():
     for j, cfg in enumerate(extra):
         ra = ck.subseed("rsx", j) % 100000
         tasks.append(("tvf.checks.c09:repro_case", dict(cfg=dict(cfg, seed=0), rs_a=ra, rs_b=ra + 1), None))
+    btasks = [("tvf.checks.c09:boundary_seeds_case", dict(cfg=dict(runs.small_cfg(j), seed=0, N=24, n_total=48)), None) for j in range(ck.pick(2, 8))]
+    for i, st, val in farm.run(btasks, timeout=600, progress="C09-seeds"):
+        kw = btasks[i][1]
+        if st != "ok":
+            ck.violation("run-crashed", f"boundary seeds {kw['cfg']}: {st} {str(val)[-300:]}", kw)
+            continue
+        bad, nr = val
+        ck.case(dict(boundary_seeds=kw), nontrivial=nr > 1)
+        ck.event("runs seeded at the ends of the valid seed range and at the 31/32-bit boundaries, compared pairwise", nr)
+        for key, what in bad:
+            ck.violation(key, what, kw)
     rtasks = [("tvf.checks.c09:resume_repro_case", dict(cfg=dict(runs.small_cfg(i), seed=0), rs=ck.subseed("rr", i) % 100000), None) for i in range(ck.pick(4, 24))]
     for i, st, val in farm.run(rtasks, timeout=600, progress="C09-resume"):
         kw = rtasks[i][1]
